@@ -45,7 +45,7 @@ def fresh(cases, flags=()):
 
 def corpus(ctx):
     rng = ctx.sub("corpus")
-    prof = gen.Profile(max_tracks=2, max_groups=8, meta_fields=0.5, dup_fields=0.35)
+    prof = gen.Profile(max_tracks=3, max_groups=8, meta_fields=0.5, dup_fields=0.35)
     cases = []
     for _ in range(ctx.n(24, 300)):
         src = gen.rand_src(rng, prof)
@@ -55,7 +55,21 @@ def corpus(ctx):
             from .C18 import mutate
             text = R.newline.join(mutate(rng, R.lines))
         want = None if rng.random() < 0.7 else [(rng.randrange(10), rng.randrange(4)) for _ in range(2)] + [(t.inst, t.diff) for t in src.tracks[:1]]
+        if rng.random() < 0.25:
+            # one of a few selections shared by many charts of the corpus (a batch job with one selection object)
+            want = rng.choice([[(0, 3)], [(0, 3), (4, 3)], [(2, 2), (0, 0)], [(1, 3), (0, 2)]])
         cases.append((text, want))
+    # one selection object, charts that have the wanted track, only an easier difficulty of it, or only another instrument
+    head = "[Song]\n{\n  Resolution = 192\n}\n[SyncTrack]\n{\n  0 = TS 4\n  0 = B 120000\n}\n[Events]\n{\n}\n"
+    sec_ = lambda tag, k: f"[{tag}]\n{{\n  {k} = N 0 0\n  {k + 50} = N 1 0\n}}\n"  # noqa: E731
+    for tags in (["ExpertSingle", "HardSingle"], ["HardSingle"], ["MediumSingle", "ExpertDoubleBass"], ["ExpertSingle", "HardSingle", "EasySingle"], ["ExpertDrums"]):
+        cases.append((head + "".join(sec_(t, 10 * (j + 1)) for j, t in enumerate(tags)), [(0, 3)]))
+        cases.append((head + "".join(sec_(t, 10 * (j + 2)) for j, t in enumerate(tags)), [(0, 3), (4, 3)]))
+    # charts whose sync section lacks its tick-0 signature and / or tempo: always the same answer, first time and every time after
+    for body in (["  0 = B 120000", "  5 = TS 3"], ["  0 = TS 4", "  7 = B 90000"], ["  3 = TS 4", "  9 = B 90000"], ["  0 = B 100000"], ["  0 = TS 6"]):
+        for k in range(2):
+            cases.append(("[Song]\n{\n  Resolution = 192\n}\n[SyncTrack]\n{\n" + "\n".join(body) + "\n}\n[Events]\n{\n" + ("  1 = E \"x\"\n" * k)
+                          + "}\n[ExpertSingle]\n{\n  0 = N 0 0\n}\n", None))
     # > 128 distinct sustain tuples in one chart, and > 128 distinct resolutions over tiny charts
     groups = [gen.NoteGroup(10 * k, {0: k + 1, 1: 2 * k + 3}) for k in range(160)]
     src = gen.ChartSrc(192, {"resolution": 192}, [(0, 120000)], [(0, 4, None)], [], [], [gen.TrackSrc(0, 3, groups, [], [])])
@@ -79,15 +93,15 @@ def slice(ctx: fw.Ctx) -> fw.Outcome:
         ref = [r for b in ex.map(fresh, batches) for r in b]
     singles_idx = ctx.sub("singles").sample(range(len(cases)), min(len(cases), ctx.n(8, 120)))
     # the single parses also vary the interpreter's own switches: the result is a function of the text, not of -O / -OO
-    switches = [(), ("-O",), ("-OO",)]
+    switches = [(), ("-O",), ("-OO",), ("-W", "error")]
     with ThreadPoolExecutor(jobs) as ex:
-        singles = list(ex.map(lambda jk: fresh([cases[jk[1]]], switches[jk[0] % 3])[0], enumerate(singles_idx)))
+        singles = list(ex.map(lambda jk: fresh([cases[jk[1]]], switches[jk[0] % 4])[0], enumerate(singles_idx)))
     for j, (k, s) in enumerate(zip(singles_idx, singles)):
-        sw = " ".join(switches[j % 3]) or "default switches"
-        out.case("F" + fw.h(cases[k]), False, None, tags=["fresh-single" + "".join(switches[j % 3])])
+        sw = " ".join(switches[j % 4]) or "default switches"
+        out.case("F" + fw.h(cases[k]), False, None, tags=["fresh-single" + "".join(switches[j % 4])])
         if s != ref[k]:
             out.violation("fresh-" + fw.h(cases[k]), f"a chart parsed alone in a fresh interpreter ({sw}) differs from the same chart parsed after others in another fresh interpreter",
-                          {"op": "history", "cases": [list(c) for c in batches[k // per][: k % per + 1]], "switches": list(switches[j % 3])}, observed=s[:200], promised=ref[k][:200])
+                          {"op": "history", "cases": [list(c) for c in batches[k // per][: k % per + 1]], "switches": list(switches[j % 4])}, observed=s[:200], promised=ref[k][:200])
     # The Lean side of C17 is the memoisation argument and the state inventory; the whole-chart model is *not* compared here:
     # a change to what a parse computes is another property's business, C17 is about the same text giving the same result.
     # (b) in-process histories
